@@ -4,7 +4,7 @@ from collections import Counter, defaultdict
 
 import networkx as nx
 
-from .runner import Fail, expect
+from .runner import Fail, expect, note
 from . import molgen
 
 INTERNAL = {'fragid', 'fragname', 'bonding', 'hcount', 'atomname', 'mapping', 'ez_isomer_atoms',
@@ -212,6 +212,13 @@ def check_bonds(cg, fine, templates, legacy, all_atom, dedicated, what=''):
                 h.remove_edge(a, b)
                 in_ring = nx.has_path(h, a, b)
             expect(arom and in_ring, 'bonds:order', lambda: '%sbond %r-%r has order 1.5 outside an aromatic ring' % (what, a, b))
+        elif (order == 2 and digit == 1 and all_atom and
+              all(any(templates[fn].nodes[idx].get('aromatic') for fn, idx in fine.nodes[x].get('mapping', []) or [])
+                  for x in (a, b))):
+            # both atoms were WRITTEN lower-case: the cut bond is a SMILES aromatic bond, whose order is
+            # fixed by the Kekule structure of the conjugated system (a quinoid ring is not aromatic and
+            # its ring C=C bond comes back as 2); C01 compares these orders with the model molecule
+            note('lowercase_bond_localised_to_double')
         else:
             expect(order == digit, 'bonds:order',
                    lambda: '%sbond %r-%r has order %r, descriptors %r/%r annotate %d' % (what, a, b, order, l, r, digit))
